@@ -62,7 +62,8 @@ def judge_tn93(ctx, rows, stats):
 def run(ctx):
     ctx.rule = ("TLC enumerates all 289 symbol pairs at width 1 in a resolved 12-column context (table mode and plain mode, 3 measures, "
                 "both directions), all 49x49 width-2 combinations over {A,C,G,T,R,N,-}, bare width-1 pairs; seeded random pairs of width "
-                "10-300; non-trivial = a run with at least one non-zero defined distance")
+                "10-300, and repeated-unit alignments of 70,000-140,000 columns (a unit of 12-20 columns and its repeat count; the counts scale by "
+                "Distance!ThmRepeat); non-trivial = a run with at least one non-zero defined distance")
     obs = collect(ctx)
     rows, fails, stats = kernel.validate_obs(ctx, "ObsC07", "ObsC07.cfg", obs, tag="closest")
     judge_tn93(ctx, rows, stats)
@@ -70,7 +71,7 @@ def run(ctx):
     ctx.exhaustive = True
     ctx.assumptions = ["tn93: TLC decides the column classes and counts (P1,P2,Q,L, target base counts); eq. 7 is evaluated in float64 by the "
                        "driver on those integers and compared to 5e-9 (DESIGN.md section 8)",
-                       "fewer than 1024 compared sites per pair (no 9-decimal rounding ties)",
+                       "fewer than 1024 compared sites per pair, or per unit of a repeated-unit alignment (no 9-decimal rounding ties)",
                        "tn93 pairs whose logarithm arguments are not positive are skipped"]
 
 
